@@ -63,9 +63,10 @@ def main():
     if demo:
         d = demo[0]
         r1 = sh("cd %s && PYTHONPATH=%s /venv/bin/python %s" % (wt, wt, d))
-        sh("git -C %s stash" % wt)
+        patch = os.path.join(out, "patch.diff")          # (git stash is shared between worktrees: never use it here)
+        assert sh("git -C %s apply -R %s" % (wt, patch)).returncode == 0
         r0 = sh("cd %s && PYTHONPATH=%s /venv/bin/python %s" % (wt, wt, d))
-        sh("git -C %s stash pop" % wt)
+        assert sh("git -C %s apply %s" % (wt, patch)).returncode == 0
         meta["demo"] = dict(script=d, exit_with_change=r1.returncode, exit_without_change=r0.returncode,
                             tail_with_change=r1.stdout[-400:], tail_without=r0.stdout[-200:])
         meta["ran"].append("demo with and without the change")
@@ -75,9 +76,10 @@ def main():
         if os.path.exists(base_file):
             base = set(json.load(open(base_file)))
         else:
-            sh("git -C %s stash" % wt)
+            patch = os.path.join(out, "patch.diff")
+            assert sh("git -C %s apply -R %s" % (wt, patch)).returncode == 0
             base = passing_tests(wt)
-            sh("git -C %s stash pop" % wt)
+            assert sh("git -C %s apply %s" % (wt, patch)).returncode == 0
             json.dump(sorted(base), open(base_file, "w"), indent=0)
         got = passing_tests(wt)
         meta["tests"] = dict(baseline_pass=len(base), pass_with_change=len(got), same_pass_set=(got == base),
